@@ -141,6 +141,31 @@ func (st *yamlStyle) factorDoc(doc orderedJSON) (*yaml.Node, any) {
 		}
 	}
 	walk(root, doc, false)
+	if len(doc) >= 2 && st.rng.Intn(2) == 0 {
+		// the TOP-LEVEL mapping itself takes its first j keys (steps, env, ... whatever comes first) from an anchored
+		// base through a merge - `<<: *defaults` at the top of a pipeline file
+		j := 1 + st.rng.Intn(len(doc)-1)
+		count++
+		base := &yaml.Node{Kind: yaml.MappingNode, Tag: "!!map", Anchor: "b0"}
+		base.Content = append(base.Content, root.Content[:2*j]...)
+		baseDen := append(orderedJSON{}, doc[:j]...)
+		if st.rng.Intn(2) == 0 {
+			o := j + st.rng.Intn(len(doc)-j)
+			pos := st.rng.Intn(j + 1)
+			knode, vnode := st.strNode(doc[o][0].(string)), st.strNode("overridden-0")
+			rest := append([]*yaml.Node{knode, vnode}, base.Content[2*pos:]...)
+			base.Content = append(base.Content[:2*pos:2*pos], rest...)
+			baseDen = append(baseDen[:pos:pos], append(orderedJSON{{doc[o][0], "overridden-0"}}, baseDen[pos:]...)...)
+		}
+		bases.Content = append(bases.Content, base)
+		denoted = append(denoted, baseDen)
+		merged := &yaml.Node{Kind: yaml.MappingNode, Tag: "!!map", Style: root.Style}
+		merged.Content = append(merged.Content,
+			&yaml.Node{Kind: yaml.ScalarNode, Tag: "!!merge", Value: "<<"},
+			&yaml.Node{Kind: yaml.AliasNode, Alias: base, Value: "b0"})
+		merged.Content = append(merged.Content, root.Content[2*j:]...)
+		root = merged
+	}
 	if count == 0 {
 		return root, doc
 	}
